@@ -273,3 +273,25 @@ def replay(ctx, payload):
     if len(dumps) >= 2 and common.canon(io[dumps[0]]["ok"]) != common.canon(io[dumps[1]]["ok"]):
         return True
     return False
+
+
+def run_witness(ctx, finding):
+    if finding["id"] != "J9-merge-with-original-typesystem":
+        return False
+    import warnings
+    from cassis import Cas, TypeSystem, load_cas_from_json
+
+    def raises(build):
+        ts = TypeSystem(); build(ts); cas = Cas(ts)
+        try:
+            load_cas_from_json(cas.to_json(), typesystem=ts)
+            return False
+        except ValueError:
+            return True
+        except Exception:  # noqa: BLE001
+            return False
+    with warnings.catch_warnings():
+        warnings.simplefilter("ignore")
+        return (raises(lambda ts: ts.create_feature(ts.create_type("x.T"), "arr", "uima.cas.StringArray", elementType="uima.cas.String"))
+                and raises(lambda ts: ts.create_feature(ts.create_type("x.T"), "f", "uima.cas.Integer", description=""))
+                and not raises(lambda ts: ts.create_feature(ts.create_type("x.T"), "arr", "uima.cas.StringArray")))
